@@ -92,7 +92,7 @@ Theorem sched_step_safe : forall s a, SInv s ->
   SInv (snd (sched_step s a)) /\ fst (sched_step s a) <> OCrash.
 Proof.
   intros s a HI. pose proof HI as [Hu Hc].
-  destruct a as [c so sto eno fl|g|g| | |i|i v]; cbn [sched_step].
+  destruct a as [c so sto eno fl|g|g| | |i|i v|]; cbn [sched_step].
   - (* start: a new generator object, nothing runs *)
     destruct (iterindices (sc_len s) c so sto eno fl) as [frames|e]; cbn [fst snd]; (split; [|discriminate]);
       apply start_inv; exact HI.
@@ -193,6 +193,10 @@ Proof.
     destruct AS as (C1 & O1 & U1 & G1 & X1 & D1 & L1 & Hg & Hx & M1). rewrite M1. cbn [fst snd]. split; [|discriminate].
     apply (release_inv _ m); cbn [set_data sc_cache sc_open sc_users sc_gens sc_ctx]; try assumption;
       [rewrite U1, Hu, G1, X1; reflexivity|rewrite G1; exact Hg|rewrite X1; exact Hx].
+  - (* an access for which NumPy raises *)
+    pose proof (acquire_spec s HI) as AS. destruct (acquire s) as [m s1].
+    destruct AS as (C1 & O1 & U1 & G1 & X1 & D1 & L1 & Hg & Hx & M1). cbn [fst snd]. split; [|discriminate].
+    apply (release_inv _ m); try assumption; [rewrite U1, Hu, G1, X1; reflexivity|rewrite G1; exact Hg|rewrite X1; exact Hx].
 Qed.
 
 Theorem sched_run_safe : forall acts s, SInv s ->
